@@ -110,7 +110,12 @@ def main(c):
     c.assumptions += [
         "trusted base: harness lexer, TLC, RefTerm/GfxTerm reference terminals, Go's image/png header decoder, "
         "x/image nearest-neighbour resampling and the PNG/sixel encoders (pixel content of scaled images is not judged)",
-        "block-image colours are judged on images that fit their box (unscaled), on an RGB-capable terminal",
+        "block-image colours are judged on images that fit their box (unscaled), on an RGB-capable terminal; the source "
+        "pixels are what the source image (NRGBA, RGBA, 64-bit, paletted, gray, CMYK, YCbCr, a foreign image type; at (0,0) "
+        "or a crop that kept its coordinates) reports through At().RGBA() inside its bounds, counted from Bounds().Min",
+        "image size = Bounds().Dx() x Bounds().Dy()",
+        "two Resize calls in a row: the image of the second call is the one to show: CellSize() is a fit of the second "
+        "box (kitty, sixel) and the transmitted PNG has that size (kitty; a sixel transmission does not tell its size)",
         "sufficiently transparent = 8-bit alpha below 50 (the library's documented threshold)",
         "a full-block cell covering one transparent and one opaque pixel is left open",
         "a sixel image occupies the cells the library reports for it; kitty images occupy the cells of the PNG they transmit",
@@ -119,11 +124,11 @@ def main(c):
     selftest_ok = True
     heap(4096)
     if not c.replay:
-        runs = [("MC_Gfx.tla", "MC_Fit.cfg"), ("MC_Gfx.tla", "MC_Place.cfg")]
+        runs = [("MC_Gfx.tla", "MC_Fit.cfg"), ("MC_Gfx.tla", "MC_Place.cfg"), ("MC_Enc.tla", "MC_Enc.cfg")]
         if c.tier != "quick":
             runs += [("MC_Gfx.tla", "MC_Fit_deep.cfg"), ("MC_Gfx.tla", "MC_Place_deep.cfg")]
-        with cf.ThreadPoolExecutor(max_workers=2) as ex:
-            list(ex.map(lambda r: c.model_check(specs, r[0], r[1], workers=6), runs))
+        with cf.ThreadPoolExecutor(max_workers=3) as ex:
+            list(ex.map(lambda r: c.model_check(specs, r[0], r[1], workers=4), runs))
         for m in c.cov["models"]:
             if not m["ok"]:
                 c.notes.append("MODEL-DRIFT candidate: %s/%s reports an invariant violation (not a verdict)" % (m["model"], m["cfg"]))
@@ -177,5 +182,7 @@ def main(c):
              "window) or one frame of a placement history; fit: block protocols enumerate every image 1..12 x 1..24 px and "
              "box 1..12 x 1..12 (thorough: all 2 x 41472, quick: seeded 5%), kitty/sixel sample image sizes 1..12 cells x 3 "
              "cell geometries; block: every alpha level 0..255 (quick: boundary levels + seeded) x colour sample x "
-             "top/bottom position; histories: seeded add/keep/move/resize/drop over <= 3 images with Render/Refresh/terminal "
-             "resize for kitty and sixel; distinct = distinct records / history descriptors")
+             "top/bottom position x 11 kinds of source image x origin; histories: seeded add/keep/move/resize/drop over <= 3 "
+             "images with Render/Refresh/terminal resize for kitty and sixel, kitty histories with two Resize calls in a row "
+             "(long then short encoding and the reverse); one record in four uses an image whose bounds do not start at "
+             "(0,0); distinct = distinct records / history descriptors")
